@@ -1,2 +1,35 @@
-(* C05 — placeholder: collects the no-crash theorems of the individual models once merged. *)
-From JV Require Import Bytes.
+(* C05 — No input can crash, hang or escape memory bounds in any entry point.
+   Every Rust panic site (indexing, unwrap, unreachable!, debug_assert!, overflow), every unchecked
+   access and every loop of the modelled code is explicit in the models as an outcome
+   Panic / OOB / OutOfFuel.  This file collects, per entry point, the theorem that the model never
+   reaches such an outcome, for ALL inputs (and schedules / call histories).  The statements are
+   re-stated here and proved by the theorems pinned in the owning property's file.
+   What is NOT covered by a theorem is listed in props/C05.py (CLAIM) and DESIGN.md section 11:
+   real stack depth (known finding I), the deserializer walks, the DOM/JSON walks on arbitrary
+   tapes (C16/C17 prove them on well-formed tapes), allocator failure, pointer provenance. *)
+From JV Require Import Bytes Tables.
+From JV Require TextTape BinTape BinPrim Writer TextReader BufWin.
+From JV.Props Require C03 C06 C08 C15.
+
+(* text tape parser: no panic site reachable, fuel 2*len+8 suffices (termination) *)
+Theorem C05_text_tape_never_crashes : forall input,
+  match TextTape.parse input with Panic _ | OOB _ | OutOfFuel => False | _ => True end.
+Proof. exact C06.C06_text_no_crash. Qed.
+Print Assumptions C05_text_tape_never_crashes.
+
+(* binary tape parser, optimised and reference interpretation, code as it is and repaired *)
+Theorem C05_binary_tape_never_crashes : forall fx opt bytes, is_crash (BinTape.parse fx opt bytes) = false.
+Proof. exact C03.C03_parse_never_crashes. Qed.
+Print Assumptions C05_binary_tape_never_crashes.
+
+(* binary lexer: a token, Eof or InvalidRgb -- nothing else *)
+Theorem C05_binary_lexer_total : forall d,
+  (exists t r, BinPrim.read_token d = Ok (t, r)) \/ BinPrim.read_token d = Err BinPrim.E_LexEof \/ BinPrim.read_token d = Err BinPrim.E_InvalidRgb.
+Proof. exact C08.C08_read_token_total. Qed.
+Print Assumptions C05_binary_lexer_total.
+
+(* text writer: every call history, well formed or not, runs without a panic *)
+Theorem C05_writer_never_crashes : forall (fdisp : bool -> N -> option N -> bytes) (c : Writer.cfg) (calls : list Writer.call),
+  exists r, Writer.run fdisp c calls = Ok r.
+Proof. exact C15.C15_no_panic. Qed.
+Print Assumptions C05_writer_never_crashes.
